@@ -29,10 +29,11 @@ def one_build(c, tier, release):
         ts += s
     j, n = lib.gen_step(c, "Gen_CArc", "Gen_CArc.cfg" if quick else "Gen_CArc_thorough.cfg", "gen_carc_c_%s" % label)
     nn += n
-    b, s = lib.replay_step(c, rt, ["arc"], j, ["--slots", "3", "--allocs", "2", "--threads", "2", "--c"], parts=8, label="(%s, clone/drop in C)" % label,
-                           what="CArc driven through its C layout diverges from the specification")
-    tb += b
-    ts += s
+    for mod, lab in (("arc", ""), ("arc64", ", payload aligned to 64")):
+        b, s = lib.replay_step(c, rt, [mod], j, ["--slots", "3", "--allocs", "2", "--threads", "2", "--c"], parts=8, label="(%s, clone/drop in C%s)" % (label, lab),
+                               what="CArc driven through its C layout diverges from the specification")
+        tb += b
+        ts += s
     rc, summ, out = lib.run_adapter([rt, "cview", "misc"])
     if rc != 0 or summ is None:
         c.violation("driving box/slices/callbacks/iterators through the C layout crashed (rc=%s, %s build)" % (rc, label), {"build": label})
